@@ -487,7 +487,7 @@ def _conecyl_redefs():
     return {
         'stack': lambda c: (setattr(c, 'stack', [0., 90., 90., 0.]), setattr(c, 'plyts', []), setattr(c, 'laminaprops', [])),
         'P': lambda c: setattr(c, 'P', 3.0e3),
-        'Fc': lambda c: setattr(c, 'Fc', -5.0e3),
+        'Fc': lambda c: setattr(c, 'Fc', 5.0e3),
         'force': lambda c: c.add_force(0.2, 10., 0., 0., 9.),
         'edge': lambda c: setattr(c, 'kphixBot', 4.0e3),
         'n2': lambda c: setattr(c, 'n2', 3),
